@@ -468,8 +468,20 @@ fn chain(ctx: &mut Ctx, prop: &'static str) -> R {
             stream = s2;
             ctx.count("f:peer_unsolicited_100");
         }
+        let mut early = false;
+        if (prop == "C14" || prop == "C15") && shift == 0 && status >= 200 && ctx.chance(1, 10) {
+            // history: an interim 1xx head precedes the response; it may carry a Location of its
+            // own, which is not "the Location of the response". The caller polls past it.
+            let loc = if ctx.chance(2, 3) { Some(*ctx.pick(&["http://stale.example/early", "/early-hint", "//stale.example:81/x"])) } else { None };
+            let mut s2 = crate::scen_exchange::interim_1xx(ctx, loc);
+            shift = s2.len();
+            s2.extend_from_slice(&stream);
+            stream = s2;
+            early = true;
+            ctx.count("f:interim_1xx_before_final_head");
+        }
         let sliced = ctx.chance(1, 4) || prop == "C02";
-        let mut arrivals = if sliced { gen_arrival(ctx, stream.len(), &plan.line_ends, 60).0 } else { vec![stream.len()] };
+        let mut arrivals = if sliced { gen_arrival(ctx, stream.len(), &plan.line_ends.iter().map(|e| e + shift).collect::<Vec<_>>(), 60).0 } else { vec![stream.len()] };
         if let Some((a, b)) = plan.protected() {
             arrivals.retain(|p| !(*p >= a + shift && *p < b + shift));
         }
@@ -481,6 +493,7 @@ fn chain(ctx: &mut Ctx, prop: &'static str) -> R {
             pol.head_out = *ctx.pick(&[crate::world::Sz::Tiny, crate::world::Sz::Random, crate::world::Sz::Mixed]);
             pol.canonical = false;
         }
+        pol.skip_interim = early;
         set_observed(true);
         let ex = Exchange { prop, body: &cur.body, policy: pol, server: ServerPlan { msgs: vec![], close_after: plan.truth == RF::Close }, fixed_stream: Some(FixedStream { stream: &stream, consumed: 0, visible: 0, arrivals }) };
         let obs = ex.run(ctx, flow)?;
@@ -596,6 +609,12 @@ fn chain(ctx: &mut Ctx, prop: &'static str) -> R {
         }
         // ================================================================ what comes after
         let is_redirect_status = (300..400).contains(&status) && status != 304;
+        if early && obs.responses.len() < 2 && !matches!(obs.terminal, Terminal::Redirect(_) | Terminal::Cleanup(_)) {
+            // polling past a delivered interim head was refused: nothing to judge
+            ctx.count("p:interim_poll_refused");
+            ctx.nontrivial = true;
+            break;
+        }
         let terminal = obs.terminal;
         if prop == "C15" {
             match (&terminal, is_redirect_status) {
